@@ -188,6 +188,7 @@ func newSorts(keyMode bool) *Sorts {
 		"(declare-fun errcause (Iface) Iface)",
 		"(declare-fun errIs (Iface Iface) Bool)",
 		"(declare-fun errAs (Iface Int) Bool)",
+		"(declare-fun fpow (Real Real) Real)",
 		"(assert (forall ((e Iface) (t Iface)) (! (=> (and (= (i_tag e) 0) (not (= (i_tag t) 0))) (not (errIs e t))) :pattern ((errIs e t))))) ;bg",
 		"(assert (forall ((e Iface)) (! (errIs e e) :pattern ((errIs e e))))) ;bg",
 		"(declare-fun bytes2str ((Array Int Int) Int Int) Int)",
